@@ -137,12 +137,21 @@ class Native:
     def _start(self):
         self.p = subprocess.Popen([self.bin], stdin=subprocess.PIPE, stdout=subprocess.PIPE, text=True, bufsize=1)
 
-    def call(self, op, **args):
+    def call(self, op, _timeout=20.0, **args):
+        import select
         if self.p is None or self.p.poll() is not None:
             self._start()
         req = dict(args, op=op)
         self.p.stdin.write(json.dumps(req) + '\n')
         self.p.stdin.flush()
+        ready, _, _ = select.select([self.p.stdout], [], [], _timeout)
+        if not ready:
+            # the real code did not answer: treat as non-termination of this call
+            self.p.kill()
+            self.p.wait()
+            self.p = None
+            self.calls += 1
+            return {'timeout': _timeout}
         line = self.p.stdout.readline()
         self.calls += 1
         if not line:
